@@ -90,6 +90,7 @@ type lexer struct {
 	data string
 	p, pe, m int
 	id, mid string
+	depth int // current nesting depth of terms/relations being parsed
 }
 
 // initialize/reset lexer with data string to lex
